@@ -6,6 +6,33 @@ use std::path::Path;
 /// `None` content = directory
 pub type Entries = Vec<(String, Option<Vec<u8>>)>;
 
+/// scratch directory: `$VERIF_TMP`, else `/dev/shm` (tmpfs: thousands of small trees per second),
+/// else `$TMPDIR` / `/tmp`; removed on drop
+pub struct Scratch(pub std::path::PathBuf);
+impl Scratch {
+    pub fn new(tag: &str) -> Self {
+        let base = std::env::var("VERIF_TMP").ok().unwrap_or_else(|| {
+            if Path::new("/dev/shm").is_dir() && std::fs::create_dir_all("/dev/shm/physis-verif").is_ok() {
+                "/dev/shm/physis-verif".to_string()
+            } else {
+                std::env::var("TMPDIR").unwrap_or_else(|_| "/tmp".to_string())
+            }
+        });
+        let p = std::path::PathBuf::from(base).join(format!("physis-verif-{}-{}", std::process::id(), tag));
+        let _ = std::fs::remove_dir_all(&p);
+        std::fs::create_dir_all(&p).expect("cannot create scratch dir");
+        Scratch(p)
+    }
+    pub fn path(&self) -> &Path {
+        &self.0
+    }
+}
+impl Drop for Scratch {
+    fn drop(&mut self) {
+        let _ = std::fs::remove_dir_all(&self.0);
+    }
+}
+
 pub fn pattern(len: usize, seed: usize) -> Vec<u8> {
     (0..len).map(|i| (seed + 7 * i + 13 * (i / 256)) as u8).collect()
 }
